@@ -1,4 +1,4 @@
-use cosmwasm_std::{DepsMut, Response, StdError, Uint128};
+use cosmwasm_std::{DepsMut, Response, StdError, StdResult, Storage, Uint128};
 
 use crate::error::ContractError;
 use crate::helpers;
@@ -29,4 +29,23 @@ pub fn take_global_weight_snapshot(deps: DepsMut) -> Result<Response, ContractEr
         ("epoch", current_epoch.to_string()),
         ("current_global_weight", current_global_weight.to_string()),
     ]))
+}
+
+/// Takes the global weight snapshot for the given epoch unless it was taken already. Changes to
+/// positions made during an epoch only count towards the address weights from the next epoch on,
+/// so the epoch's snapshot must be fixed before the first of those changes touches the global
+/// weight. Otherwise the shares of the epoch (address weight / snapshot) don't add up to 100%.
+pub fn take_global_weight_snapshot_if_missing(
+    storage: &mut dyn Storage,
+    current_epoch: u64,
+) -> StdResult<()> {
+    if GLOBAL_WEIGHT_SNAPSHOT
+        .may_load(storage, current_epoch)?
+        .is_none()
+    {
+        let current_global_weight = GLOBAL_WEIGHT.may_load(storage)?.unwrap_or(Uint128::zero());
+        GLOBAL_WEIGHT_SNAPSHOT.save(storage, current_epoch, &current_global_weight)?;
+    }
+
+    Ok(())
 }
